@@ -344,3 +344,38 @@ func init() {
 	register(&Scenario{Prop: "C03", Name: "c03/long-connection-close", Quick: []Bound{{0, 0}}, Thorough: []Bound{{0, 0}}, Body: longConn("C03", ns, true), MaxSteps: 8000000, BudgetQ: 30, MinHB: 1})
 	register(&Scenario{Prop: "C01", Name: "c01/long-connection-66000", Quick: []Bound{}, Thorough: []Bound{{0, 0}}, Body: longConn("C01", []int{65534, 65535, 66000}, false), MaxSteps: 40000000, BudgetT: 200, MinHB: 1})
 }
+
+// a local Close racing with responses: whatever a call returns then, if it returns without an
+// error its reply is the one computed from its own arguments (a call that lost the race fails).
+func c01CloseRace(x *X) {
+	m := basicModes[x.Choose(len(basicModes))]
+	f := newFixture(m.so, m.co)
+	forms := []int{formCall, formGo, formCallCtx, formRoundTrip}
+	fo := x.Choose(4)
+	var calls []*ucall
+	for i := 0; i < 3; i++ {
+		flags := byte(0)
+		if i == 0 {
+			flags = fGate
+		}
+		c := newUcall(byte(i+1), flags, 12+20*i, forms[(fo+i)%4])
+		c.spawn(f.conn)
+		calls = append(calls, c)
+	}
+	vs.GoNamed("closer", func() { f.conn.Close() })
+	vs.GoNamed("opener", func() { f.w.open(1) })
+	vs.Quiesce()
+	out := c01Check(x, calls, "close-race")
+	for _, c := range calls {
+		if !c.ret {
+			x.Fail("C01/call-never-completes/close-race", "call %d did not return after Conn.Close", c.tag)
+		}
+	}
+	x.Outcome("%s fo=%d%s", m.name, fo, out)
+	f.w.open(1)
+	vs.Quiesce()
+}
+
+func init() {
+	register(&Scenario{Prop: "C01", Name: "c01/close-racing-responses", Quick: []Bound{{1, 0}}, Thorough: []Bound{{2, 0}}, Body: c01CloseRace, BudgetQ: 20})
+}
